@@ -534,6 +534,14 @@ func (s *Sim) SwarmFreeze() {
 	default:
 		s.FreezePermille, s.FreezesLeft = 0, 0
 	}
+	// a quarter of the runs: the released task also parks before a few of its
+	// uncontended lock acquisitions
+	if s.Tape.Pick(4) == 3 {
+		s.YieldOnAcquirePermille, s.YieldAcquireLeft = 30, 6
+		s.AcquireSeed = s.Tape.SubSeed()
+	} else {
+		s.YieldOnAcquirePermille, s.YieldAcquireLeft = 0, 0
+	}
 }
 
 // SetFaults configures random fault injection for the following Run calls.
